@@ -369,8 +369,15 @@ fn piecewise(tape: &[u32], st: &mut Stats) -> CaseResult {
     let piecewise_pct = [60u32, 35, 0][t.weighted(&[6, 3, 1])];
     let tree = {
         let mut g = Gen { t: &mut t, nvars, piecewise_pct, excluded_int_divisor: 0, excluded_int_base: 0 };
-        let tr = g.float(size, 0);
+        let mut tr = g.float(size, 0);
         let _ = (g.excluded_int_divisor, g.excluded_int_base);
+        // one case in twelve: inside 4-9 nested wrappers 1.0+2.0*( ... )
+        if g.t.chance(8) {
+            let k = 4 + g.t.choose(6);
+            for _ in 0..k {
+                tr = CT::Bin("+", Box::new(CT::Num("1.0".into())), Box::new(CT::Bin("*", Box::new(CT::Num("2.0".into())), Box::new(tr))));
+            }
+        }
         tr
     };
     st.excluded("by construction: integer-typed divisors (known finding F13) are never generated");
@@ -440,6 +447,7 @@ fn piecewise(tape: &[u32], st: &mut Stats) -> CaseResult {
         ($e:expr) => {{
             let e = $e;
             let anames = e.var_names().to_vec();
+            let e0 = e.clone();
             if anames != names {
                 return Err(format!("var_names {anames:?}, expected {names:?}"));
             }
@@ -451,6 +459,24 @@ fn piecewise(tape: &[u32], st: &mut Stats) -> CaseResult {
             for p in &points {
                 let v: Vec<Val<i32, f64>> = p.iter().map(|x| Val::Float(*x)).collect();
                 out.push(ex_msg(d.eval(&v))?);
+            }
+            // second derivative: differentiating the derivative again agrees with one call for order 2
+            if let (Ok(two_step), Ok(one_call)) = (d.clone().partial(wrt_pos), e0.partial_nth(wrt_pos, 2)) {
+                for p in &points {
+                    let v: Vec<Val<i32, f64>> = p.iter().map(|x| Val::Float(*x)).collect();
+                    if let (Ok(a), Ok(b)) = (two_step.eval(&v), one_call.eval(&v)) {
+                        let n = |x: &Val<i32, f64>| match x {
+                            Val::Float(f) => Some(*f),
+                            Val::Int(i) => Some(*i as f64),
+                            _ => None,
+                        };
+                        if let (Some(x), Some(y)) = (n(&a), n(&b)) {
+                            if x.is_finite() && y.is_finite() && (x - y).abs() > 1e-6 * (1.0 + x.abs().max(y.abs())) {
+                                return Err(format!("second derivative at {p:?}: partial(..).partial(..) gives {x}, partial_nth(.., 2) gives {y}"));
+                            }
+                        }
+                    }
+                }
             }
             Ok((anames, out, d.unparse().to_string()))
         }};
@@ -517,6 +543,124 @@ fn known_val_findings(i: u64, st: &mut Stats) -> CaseResult {
     }
 }
 
+// ---------------------------------------------------------------------------------------------
+// closed-form families over the value type: scaled monomials at float points (relative
+// comparison), integer polynomials at integer points (integers and floats mixed)
+
+type VV = Val<i32, f64>;
+fn vnum(v: &VV) -> Option<f64> {
+    match v {
+        Val::Int(i) => Some(*i as f64),
+        Val::Float(f) => Some(*f),
+        _ => None,
+    }
+}
+/// first and second derivative d/dx through the flat and the deep value-typed routes
+fn val_derivatives(text: &str, pts: &[Vec<VV>]) -> Result<Vec<(&'static str, Vec<VV>, Vec<VV>)>, String> {
+    let mut out = vec![];
+    let ev = |e: &dyn Fn(&[VV]) -> exmex::ExResult<VV>| -> Result<Vec<VV>, String> { pts.iter().map(|p| ex_msg(e(p))).collect() };
+    let f = ex_msg(parse_val::<i32, f64>(text))?;
+    let f1 = ex_msg(f.clone().partial(0))?;
+    let f2 = ex_msg(f1.clone().partial(0))?;
+    out.push(("parse_val: partial, .partial", ev(&|p| f1.eval(p))?, ev(&|p| f2.eval(p))?));
+    let d = ex_msg(exmex::DeepEx::<VV, exmex::ValOpsFactory<i32, f64>, exmex::ValMatcher>::parse(text))?;
+    let d1 = ex_msg(d.clone().partial(0))?;
+    let d2 = ex_msg(d.partial_nth(0, 2))?;
+    out.push(("DeepEx<Val>: partial / partial_nth(0,2)", ev(&|p| d1.eval(p))?, ev(&|p| d2.eval(p))?));
+    Ok(out)
+}
+fn n_mono_val(_: Tier) -> u64 {
+    (super::c05::FORMS.len() * super::c05::SCALES.len()) as u64
+}
+fn scaled_monomials_val(i: u64, st: &mut Stats) -> CaseResult {
+    use super::c05::{rel_close, FORMS, MONO_POINTS, SCALES};
+    let (form, lit) = (&FORMS[i as usize / SCALES.len()], SCALES[i as usize % SCALES.len()]);
+    let c: f64 = lit.parse().unwrap();
+    let text = form.0.replace("{c}", lit);
+    st.nontrivial(&text);
+    let describe = || json!({"text": text, "constant": c});
+    let has_y = text.contains('y');
+    let pts: Vec<Vec<VV>> = MONO_POINTS.iter().map(|(x, y)| if has_y { vec![Val::Float(*x), Val::Float(*y)] } else { vec![Val::Float(*x)] }).collect();
+    match guard(|| val_derivatives(&text, &pts)) {
+        Err(p) => Err(fail("C18/scaled/panic", format!("differentiating `{text}` panics: {p}"), describe())),
+        Ok(Err(e)) => Err(fail("C18/scaled/error", format!("`{text}` is differentiable but fails: {e}"), describe())),
+        Ok(Ok(list)) => {
+            for (route, firsts, seconds) in list {
+                for (k, (x, y)) in MONO_POINTS.iter().enumerate() {
+                    for (order, got, want) in [("d/dx", &firsts[k], (form.1)(c, *x, *y)), ("d2/dx2", &seconds[k], (form.2)(c, *x, *y))] {
+                        match vnum(got) {
+                            Some(g) if rel_close(g, want) => {}
+                            _ => {
+                                return Err(fail(
+                                    "C18/scaled/derivative",
+                                    format!("{route}: {order} of `{text}` at x={x}, y={y}: library {got:?}, closed form {want}"),
+                                    describe(),
+                                ))
+                            }
+                        }
+                    }
+                }
+            }
+            Ok(())
+        }
+    }
+}
+
+type IntForm = (&'static str, fn(f64, f64) -> f64, fn(f64, f64) -> f64);
+const INT_FORMS: [IntForm; 8] = [
+    ("2*x^3", |x, _| 6.0 * x * x, |x, _| 12.0 * x),
+    ("x^4*y^3-7*x^3+y^5", |x, y| 4.0 * x * x * x * y * y * y - 21.0 * x * x, |x, y| 12.0 * x * x * y * y * y - 42.0 * x),
+    ("x*x*x", |x, _| 3.0 * x * x, |x, _| 6.0 * x),
+    ("(x+1)^3", |x, _| 3.0 * (x + 1.0) * (x + 1.0), |x, _| 6.0 * (x + 1.0)),
+    ("3*x^2*y", |x, y| 6.0 * x * y, |_, y| 6.0 * y),
+    ("x^5", |x, _| 5.0 * x * x * x * x, |x, _| 20.0 * x * x * x),
+    ("(x*y)^2-x", |x, y| 2.0 * x * y * y - 1.0, |_, y| 2.0 * y * y),
+    ("x^3 if y > 0 else x^4", |x, y| if y > 0.0 { 3.0 * x * x } else { 4.0 * x * x * x }, |x, y| if y > 0.0 { 6.0 * x } else { 12.0 * x * x }),
+];
+const INT_POINTS: [(i32, i32); 4] = [(2, 2), (-3, 1), (1, -2), (4, 3)];
+const MAX_WRAP: u64 = 13;
+fn n_int_forms(_: Tier) -> u64 {
+    INT_FORMS.len() as u64 * 2 * MAX_WRAP
+}
+/// integer polynomials at integer points, and the same at float points (mixed arithmetic), inside
+/// 0-12 nested wrappers 1+2*( ... ) (the derivative scales by 2^k)
+fn int_polynomials(i: u64, st: &mut Stats) -> CaseResult {
+    let wraps = i % MAX_WRAP;
+    let i = i / MAX_WRAP;
+    let form = &INT_FORMS[i as usize / 2];
+    let as_float = i % 2 == 1;
+    let mut text = form.0.to_string();
+    for _ in 0..wraps {
+        text = format!("1+2*({text})");
+    }
+    let scale = (1u64 << wraps) as f64;
+    st.nontrivial(&format!("{text}|{as_float}"));
+    let describe = || json!({"text": text, "points": if as_float { "float" } else { "integer" }});
+    let has_y = text.contains('y');
+    let mk = |v: i32| -> VV { if as_float { Val::Float(v as f64) } else { Val::Int(v) } };
+    let pts: Vec<Vec<VV>> = INT_POINTS.iter().map(|(x, y)| if has_y { vec![mk(*x), mk(*y)] } else { vec![mk(*x)] }).collect();
+    match guard(|| val_derivatives(&text, &pts)) {
+        Err(p) => Err(fail("C18/int-polynomial/panic", format!("differentiating `{text}` panics: {p}"), describe())),
+        Ok(Err(e)) => Err(fail("C18/int-polynomial/error", format!("`{text}` is differentiable but differentiation or evaluation at {} points fails: {e}", if as_float { "float" } else { "integer" }), describe())),
+        Ok(Ok(list)) => {
+            for (route, firsts, seconds) in list {
+                for (k, (x, y)) in INT_POINTS.iter().enumerate() {
+                    for (order, got, want) in [("d/dx", &firsts[k], scale * (form.1)(*x as f64, *y as f64)), ("d2/dx2", &seconds[k], scale * (form.2)(*x as f64, *y as f64))] {
+                        if vnum(got) != Some(want) {
+                            return Err(fail(
+                                "C18/int-polynomial/derivative",
+                                format!("{route}: {order} of `{text}` at x={x}, y={y} ({} values): library {got:?}, exact value {want}", if as_float { "float" } else { "integer" }),
+                                describe(),
+                            ));
+                        }
+                    }
+                }
+            }
+            Ok(())
+        }
+    }
+}
+
 pub fn def() -> PropDef {
     PropDef {
         id: "C18",
@@ -531,6 +675,16 @@ pub fn def() -> PropDef {
                 name: "piecewise",
                 rule: "tape -> float-typed tree(2-13 nodes; + - * / ^ functions, int/float literals, int constant sub-trees incl. 7/2, piecewise terms nested up to depth 3 inside arithmetic, branches and exponents) x variable x up to 8 points; non-trivial = piecewise, both branches selected over the points, derivative differs between points; distinct by text+variable",
                 kind: Kind::Tape { len: 300, quick: 10_000, thorough: 500_000, f: piecewise },
+            },
+            SubCheck {
+                name: "scaled_monomials",
+                rule: "the 10 closed-form families of C05 x 6 constants from 1e-50 to 1e17 over the value type (parse_val and DeepEx<Val>), first and second derivative at 3 float points, relative comparison 1e-11",
+                kind: Kind::Indexed { n: n_mono_val, f: scaled_monomials_val, exhaustive: true },
+            },
+            SubCheck {
+                name: "int_polynomials",
+                rule: "8 integer polynomials (powers up to 5, products, one piecewise) inside 0-12 nested wrappers 1+2*(...) x {integer, float} points x 4 points: first and second derivative equal the exact value (Int or Float), never an error value",
+                kind: Kind::Indexed { n: n_int_forms, f: int_polynomials, exhaustive: true },
             },
             SubCheck {
                 name: "known_val_findings",
